@@ -20,7 +20,7 @@ echo "CONFIRM seed=$SEED demo_clean_rc=$A demo_patched_rc=$B suite='$T'"
 rm -f "$WT/_demo.py"
 for P in "$@"; do
   OUT=/tmp/sv/out_$NAME; rm -rf "$OUT"; mkdir -p "$OUT"
-  VFW_REPO="$WT" VFW_OUT="$OUT" timeout 1500 /verif/bin/vcheck run $P --tier ${TIER:-quick} > "$OUT/log.txt" 2>&1; RC=$?
+  VFW_REPO="$WT" VFW_OUT="$OUT" timeout 1500 ${VCHECK:-/verif/bin/vcheck} run $P --tier ${TIER:-quick} > "$OUT/log.txt" 2>&1; RC=$?
   echo "CHECK seed=$SEED prop=$P rc=$RC $(grep -c '^VIOLATION' $OUT/log.txt) violations; $(grep -A1 '^VIOLATION' $OUT/log.txt | grep clause | sed 's/ template.*//' | sort | uniq -c | tr '\n' ';')"
   grep '^INCONCLUSIVE' "$OUT/log.txt" | head -3
 done
